@@ -40,6 +40,12 @@ static uint64_t str_slot(const std::string &s) {
 	return (uint64_t)g_strs.back()->data();
 }
 
+static uint64_t wstr_slot(const std::wstring &s) { // ASCII-only wide strings: their multibyte form in any locale is the same characters
+	std::wstring z = s; z.push_back(L'\0');
+	g_strs.emplace_back(new GuardedBuf(z.data(), z.size() * sizeof(wchar_t)));
+	return (uint64_t)g_strs.back()->data();
+}
+
 static void compare(const Case &c, bool informational = false) {
 	std::string z = c.fmt; z.push_back('\0');
 	GuardedBuf gf(z.data(), z.size());
@@ -79,7 +85,8 @@ static void printf_grid() {
 		for(unsigned mask = 0; mask < nmask; mask++) {
 			std::string flags = flagset(mask, alphabet);
 			for(auto &w : widths) for(auto &p : precs) for(auto &len : lens) {
-				if(!is_int && len != "") continue;            // c, s, p: no length modifier in the property's grammar
+				bool wide_s = (conv == 's' && len == "l");      // %ls with ASCII-only wide strings: ISO C output = the same characters
+				if(!is_int && len != "" && !wide_s) continue;   // c, p: no length modifier compared (%lc is documented as unsupported by frigg)
 				if(conv == 'c' && p != "") continue;          // precision with %c is undefined
 				if(conv == 'p' && (w != "" || p != "")) continue;
 				long long my = idx++;
@@ -94,6 +101,7 @@ static void printf_grid() {
 				std::vector<Val> vals;
 				if(is_int) vals = int_values(len, is_signed, r, my % 2);
 				else if(conv == 'c') vals = {{'a', "pos"}, {(uint64_t)'Z' | 0xabcdef00ull << 8, "pos"}};
+				else if(wide_s) vals = {{wstr_slot(L""), "zero"}, {wstr_slot(L"a"), "pos"}, {wstr_slot(L"hello world"), "pos"}, {wstr_slot(std::wstring(80, L'x')), "pos"}};
 				else if(conv == 's') vals = {{str_slot(""), "zero"}, {str_slot("a"), "pos"}, {str_slot("hello world"), "pos"}, {str_slot(std::string(80, 'x')), "pos"}};
 				else vals = {{0, "zero"}, {0xdeadbeefull, "pos"}, {~0ull, "pos"}, {0x7ffc12345678ull, "pos"}};
 				for(auto &v : vals) {
